@@ -153,14 +153,15 @@ def step (d : DState) (args : List String) : DState × String :=
       match int? now with
       | some now => runOp d s (.data .otherTsi now .err)
       | none => (d, "bad-op")
-    | "pkt" :: now :: _ :: toi :: co :: cs :: fid :: sct :: fti :: pid :: plen :: ans =>
+    | "pkt" :: now :: hx :: toi :: co :: cs :: fid :: sct :: fti :: pid :: plen :: ans =>
       match int? now, nat? toi, bool? co, bool? cs, optNat? fid, optInt? sct, fti? fti, pid? pid, nat? plen, ans? ans with
       | some now, some toi, some co, some cs, some fid, some sct, some fti, some pid, some plen, some ans =>
-        runOp d s (.data (.pkt { toi, closeObject := co, closeSession := cs, fdtId := fid, sct, fti, pid, plen }) now ans)
+        runOp d s (.data (.pkt { toi, closeObject := co, closeSession := cs, fdtId := fid, sct, fti, pid, plen,
+                                 dlen := hx.length / 2 }) now ans)
       | _, _, _, _, _, _, _, _, _, _ => (d, "bad-op")
     | ["cleanup", now, stale] =>
       match int? now, bool? stale with
-      | some now, some stale => runOp d s (.cleanup now (fun _ => stale))
+      | some now, some stale => runOp d s (.cleanup now ⟨fun _ => stale, fun _ => stale⟩)
       | _, _ => (d, "bad-op")
     | ["isexp", el] =>
       match bool? el with
